@@ -34,17 +34,25 @@ theorem absS_setAt (s : Store M) (i : Nat) (v : Option (Nat × M)) :
   simp only [absS, setAt]
   split <;> rfl
 
+def opGen : Op M → Bool
+  | .upd u => u.genId
+  | .del _ => false
+
 /-- A finished call is explained by the commit log. -/
 def RecOK (s₀ : SStore M) (log : List (Entry M)) (t : Nat) (n : Nat) (r : Rec M) : Prop :=
   r.inv ≤ r.lin ∧ r.lin ≤ r.resp ∧ r.resp ≤ log.length ∧
   match r.kind with
   | .committed =>
-      log[r.lin]? = some ⟨t, n, r.op⟩ ∧ r.lin < r.resp ∧
+      (∃ tm, log[r.lin]? = some ⟨t, n, r.op, tm⟩) ∧ r.lin < r.resp ∧
       (specStep r.op (replay s₀ (log.take r.lin))).1 = r.res ∧ ∃ v, r.res = .ok (some v)
   | .refused =>
       specStep r.op (replay s₀ (log.take r.lin)) = (r.res, replay s₀ (log.take r.lin)) ∧
       (r.res = .ok none ∨ ∃ e, r.res = .error e)
-  | .raced => r.res = .error .aborted ∨ r.res = .error .unavailable
+  | .raced =>
+      -- lost a race: some other call committed inside this call's interval (five for a Delete that gave up);
+      -- the only other source of Aborted is an id generator that ran out of attempts
+      (r.res = .error .aborted ∧ (opGen r.op = true ∨ r.inv < r.resp)) ∨
+      (r.res = .error .unavailable ∧ r.inv + 5 ≤ r.resp)
 
 /-- What the read of an in-flight update established (at log length `k`). -/
 def ReadView (s₀ : SStore M) (log : List (Entry M)) (k : Nat) (u : UpdOp M) (rd : Option M) (created : Bool) :
@@ -57,14 +65,17 @@ def PcOK (s₀ : SStore M) (log : List (Entry M)) (store : Store M) (nextRef : N
   match th.pc with
   | .idle => True
   | .uChange u rd created =>
-      th.invAt ≤ th.readAt ∧ th.readAt ≤ log.length ∧ ReadView s₀ log th.readAt u rd created
+      th.invAt ≤ th.readAt ∧ th.readAt ≤ log.length ∧ ReadView s₀ log th.readAt u rd created ∧
+      (th.readAt = log.length → secondGet true u created (store u.id) = rd)
   | .uCommit u rd created new =>
       th.invAt ≤ th.readAt ∧ th.readAt ≤ log.length ∧ ReadView s₀ log th.readAt u rd created ∧
-      u.change rd = .ok new
+      u.change rd = .ok new ∧
+      (th.readAt = log.length → secondGet true u created (store u.id) = rd)
   | .dTry d seen attempt =>
       th.invAt ≤ th.readAt ∧ th.readAt ≤ log.length ∧ attempt < 5 ∧
       (replay s₀ (log.take th.readAt)) d.id = seen.map (·.2) ∧
-      ∀ r b, seen = some (r, b) → r < nextRef ∧ ∀ b', store d.id = some (r, b') → b' = b
+      (∀ r b, seen = some (r, b) → r < nextRef ∧ ∀ b', store d.id = some (r, b') → b' = b) ∧
+      (th.readAt = log.length → store d.id = seen) ∧ th.invAt + attempt ≤ th.readAt
 
 structure ThreadOK (s₀ : SStore M) (log : List (Entry M)) (store : Store M) (nextRef : Nat) (t : Nat)
     (th : Thread M) : Prop where
@@ -86,8 +97,8 @@ theorem RecOK.mono {s₀ : SStore M} {log : List (Entry M)} {t n} {r : Rec M} (h
   refine ⟨h1, h2, by simp; omega, ?_⟩
   have hk : r.lin ≤ log.length := by omega
   cases hkind : r.kind <;> simp only [hkind] at h4 ⊢
-  · obtain ⟨ha, hb, hc, hd⟩ := h4
-    refine ⟨?_, hb, ?_, hd⟩
+  · obtain ⟨⟨tm, ha⟩, hb, hc, hd⟩ := h4
+    refine ⟨⟨tm, ?_⟩, hb, ?_, hd⟩
     · rw [getElem?_snoc_of_lt (by omega)]; exact ha
     · rw [take_snoc_of_le hk]; exact hc
   · rw [take_snoc_of_le hk]; exact h4
@@ -99,16 +110,18 @@ theorem PcOK.mono {s₀ : SStore M} {log : List (Entry M)} {store store' : Store
     PcOK s₀ (log ++ [e]) store' nr' th := by
   unfold PcOK at h ⊢
   cases hpc : th.pc <;> simp only [hpc] at h ⊢
-  · obtain ⟨h1, h2, h3⟩ := h
-    refine ⟨h1, by simp; omega, ?_⟩
-    unfold ReadView at h3 ⊢
-    rw [take_snoc_of_le h2]; exact h3
-  · obtain ⟨h1, h2, h3, h4⟩ := h
-    refine ⟨h1, by simp; omega, ?_, h4⟩
-    unfold ReadView at h3 ⊢
-    rw [take_snoc_of_le h2]; exact h3
-  · obtain ⟨h1, h2, h3, h4, h5⟩ := h
-    refine ⟨h1, by simp; omega, h3, ?_, ?_⟩
+  · obtain ⟨h1, h2, h3, _⟩ := h
+    refine ⟨h1, by simp; omega, ?_, ?_⟩
+    · unfold ReadView at h3 ⊢
+      rw [take_snoc_of_le h2]; exact h3
+    · intro hlen; simp at hlen; omega
+  · obtain ⟨h1, h2, h3, h4, _⟩ := h
+    refine ⟨h1, by simp; omega, ?_, h4, ?_⟩
+    · unfold ReadView at h3 ⊢
+      rw [take_snoc_of_le h2]; exact h3
+    · intro hlen; simp at hlen; omega
+  · obtain ⟨h1, h2, h3, h4, h5, _, h7'⟩ := h
+    refine ⟨h1, by simp; omega, h3, ?_, ?_, ?_, h7'⟩
     · rw [take_snoc_of_le h2]; exact h4
     · intro r b hs
       obtain ⟨h6, h7⟩ := h5 r b hs
@@ -117,6 +130,7 @@ theorem PcOK.mono {s₀ : SStore M} {log : List (Entry M)} {store store' : Store
       rcases hst _ _ _ hb' with h8 | h8
       · exact h7 b' h8
       · omega
+    · intro hlen; simp at hlen; omega
 
 theorem ThreadOK.mono {s₀ : SStore M} {log : List (Entry M)} {store store' : Store M} {nr nr' : Nat}
     {t : Nat} {th : Thread M} (h : ThreadOK s₀ log store nr t th) (e : Entry M) (hnr : nr ≤ nr')
@@ -220,6 +234,24 @@ theorem readUpd_err {u : UpdOp M} {cur : Option (Nat × M)} {e : Err}
   have := readUpd_spec u cur
   rw [h] at this
   simpa [Except.map] using this.symm
+
+/-- Re-reading an unchanged cell gives the value of the first read: no spurious Aborted. -/
+theorem secondGet_of_readUpd {u : UpdOp M} {cur : Option (Nat × M)} {rd : Option M} {created : Bool}
+    (h : readUpd u cur = .ok (rd, created)) : secondGet true u created cur = rd := by
+  unfold readUpd at h
+  unfold secondGet
+  cases cur with
+  | none =>
+    by_cases h1 : u.isValue <;> by_cases h2 : u.createIfAbsent <;> simp [h1, h2] at h ⊢
+    · obtain ⟨rfl, rfl⟩ := h; simp
+    · obtain ⟨rfl, rfl⟩ := h; simp
+    · obtain ⟨rfl, rfl⟩ := h; simp
+  | some p =>
+    obtain ⟨r, b⟩ := p
+    by_cases h1 : u.isValue <;> by_cases h2 : u.expectAbsent <;> simp [h1, h2] at h ⊢
+    · obtain ⟨rfl, rfl⟩ := h; simp
+    · obtain ⟨rfl, rfl⟩ := h; simp
+    · obtain ⟨rfl, rfl⟩ := h; simp
 
 /-- Key lemma of the optimistic protocol (fixed code): if the re-validation read equals the value the
 change was computed from, then that value is what the specification reads from the current contents. -/
